@@ -367,7 +367,188 @@ pub fn run_crowd(prop: &str, per_rule: usize, reverse: bool) -> CrowdResult {
     CrowdResult { acc, members: n }
 }
 
+/// the ruleset-level twin without any function: one rule per near-equal value, each rule the
+/// constant itself (and the constant under a neutral operation); a ruleset that shares work between
+/// rules whose expressions compare equal hands one rule the other's value
+pub fn run_constant_crowd(reverse: bool) -> CrowdResult {
+    let mut acc = Acc::new();
+    let mut seen = BTreeSet::new();
+    let mut members: Vec<Value> = wrapped(&near_equal());
+    members.retain(|x| seen.insert(ident(x)));
+    if reverse {
+        members.reverse();
+    }
+    let n = members.len();
+    let mut rules = Vec::new();
+    for (i, v) in members.iter().enumerate() {
+        rules.push(Rule::new(format!("c{i}"), BTreeMap::new(), Expr::value(v.clone())));
+        rules.push(Rule::new(format!("l{i}"), BTreeMap::new(), Expr::Vec(vec![Expr::value(v.clone()), Expr::reff("id")])));
+    }
+    let rs = match ruleset().with_rules(rules) {
+        Ok(b) => b.build(),
+        Err(e) => {
+            acc.machinery(format!("constant crowd: {e}"));
+            return CrowdResult { acc, members: n };
+        }
+    };
+    acc.count("executions", 1);
+    let facts = Value::Map([("id".to_string(), Value::Int(7))].into_iter().collect());
+    let case = json!({"kind": "constant-crowd", "reverse": reverse});
+    match catch(|| block_on(rs.evaluate_value(&facts))) {
+        Ok(Ok(Ok(out))) if out.len() == 2 * n => {
+            let mut wrong = 0;
+            let mut first = None;
+            for (i, v) in members.iter().enumerate() {
+                let want_c = ident(v);
+                let want_l = ident(&Value::Vec(vec![v.clone(), Value::Int(7)]));
+                for (o, want) in [(&out[2 * i], &want_c), (&out[2 * i + 1], &want_l)] {
+                    let ok = matches!(&o.value, Ok(x) if ident(x) == *want);
+                    if !ok {
+                        wrong += 1;
+                        if first.is_none() {
+                            first = Some(format!("rule {} (`{}`) yields {:?}", o.rule.name(), o.rule.expr(), o.value.as_ref().map_err(|e| e.to_string())));
+                        }
+                    }
+                }
+            }
+            if let Some(f) = first {
+                acc.violation(Violation {
+                    sig: "constant-crowd/outcome".into(),
+                    what: format!("a function-less ruleset of {} rules, each a constant (or a list of it and a field) from the near-equal families{}: {wrong} outcomes are not the rule's own constant, bit for bit; first: {f}", 2 * n, if reverse { ", back to front" } else { "" }),
+                    case,
+                    size: 1,
+                });
+            }
+        }
+        other => acc.violation(Violation {
+            sig: "constant-crowd/no-outcomes".into(),
+            what: format!("a function-less ruleset of {} constant rules: {:?}", 2 * n, other.map(|r| r.map(|x| x.map(|o| o.len()).map_err(|e| e.to_string())))),
+            case,
+            size: 1,
+        }),
+    }
+    acc.outcome("constant-crowd");
+    CrowdResult { acc, members: n }
+}
+
+/// function-table crowd: several hundred functions whose names mix one- to four-byte letters at
+/// lengths 1..3 (so that byte length, character count and alphabetical order all disagree),
+/// registered in three orders; one rule calls every one of them, each must answer with its own index
+pub fn run_function_crowd() -> CrowdResult {
+    let mut acc = Acc::new();
+    let letters = ['a', 'z', 'é', 'ß', 'Ω', 'я', '中', '𝒳'];
+    let mut names: Vec<String> = Vec::new();
+    let mut frontier = vec![String::new()];
+    for _ in 0..3 {
+        let mut next = Vec::new();
+        for w in &frontier {
+            for c in letters {
+                let mut t = w.clone();
+                t.push(c);
+                next.push(t);
+            }
+        }
+        names.extend(next.iter().cloned());
+        frontier = next;
+    }
+    names.extend(["max", "âge", "taux", "zz", "prix_net", "_x", "_é", "naïve", "straße", "x1", "é1", "ab_cd_ef", "aaaaaaaaaaaaaaaaaaaaaaaa", "ééééééé"].iter().map(|s| s.to_string()));
+    names.sort();
+    names.dedup();
+    let names: Vec<&'static str> = names.into_iter().map(|n| &*Box::leak(n.into_boxed_str())).collect();
+    let n = names.len();
+    let index_of: std::collections::HashMap<&'static str, i128> = names.iter().enumerate().map(|(i, n)| (*n, i as i128)).collect();
+    let index_of = Arc::new(index_of);
+    let io = index_of.clone();
+    let h: Handler = Arc::new(move |name, _p| (Ok(Value::Int(*io.get(name).unwrap_or(&-1))), 0));
+    let mut orders: Vec<(&str, Vec<usize>)> = vec![("sorted", (0..n).collect()), ("reversed", (0..n).rev().collect())];
+    let mut scrambled: Vec<usize> = (0..n).collect();
+    scrambled.sort_by_key(|i| (*i as u64).wrapping_mul(0x9E37_79B9_7F4A_7C15) >> 7);
+    orders.push(("scrambled", scrambled));
+    for (label, order) in orders {
+        let mut refused = Vec::new();
+        let mut b = Some(ruleset());
+        for &i in &order {
+            // (a refusal consumes the builder: the order is abandoned and reported)
+            match b.take().expect("builder present").with_function(probe(names[i], i % 2 == 0, &h)) {
+                Ok(nb) => b = Some(nb),
+                Err(e) => {
+                    refused.push(format!("{}: {e}", names[i]));
+                    break;
+                }
+            }
+        }
+        let case = json!({"kind": "function-crowd"});
+        if !refused.is_empty() {
+            acc.violation(Violation { sig: "function-crowd/refused".into(), what: format!("registering {n} distinct well-formed function names ({label} order): refused {refused:?}"), case, size: 1 });
+            return CrowdResult { acc, members: n };
+        }
+        let all = Expr::Vec((0..n).map(|i| Expr::func(names[i], Expr::value(i as i128))).collect());
+        let rs = match b.take().expect("builder present").with_rule(Rule::new("all", BTreeMap::new(), all)) {
+            Ok(b) => b.build(),
+            Err(e) => {
+                acc.machinery(format!("function crowd: {e}"));
+                return CrowdResult { acc, members: n };
+            }
+        };
+        acc.count("executions", 1);
+        match catch(|| block_on(rs.evaluate_value(&Value::None))) {
+            Ok(Ok(Ok(out))) if out.len() == 1 => match &out[0].value {
+                Ok(Value::Vec(items)) if items.len() == n => {
+                    if let Some((i, v)) = items.iter().enumerate().find(|(i, v)| **v != Value::Int(*i as i128)) {
+                        acc.violation(Violation {
+                            sig: "function-crowd/wrong-function".into(),
+                            what: format!("{n} functions registered ({label} order): the call `{}(..)` was answered by {}", names[i], match v { Value::Int(j) if *j >= 0 && (*j as usize) < n => format!("`{}`", names[*j as usize]), other => format!("{other:?}") }),
+                            case,
+                            size: 1,
+                        });
+                    }
+                }
+                other => acc.violation(Violation {
+                    sig: "function-crowd/outcome".into(),
+                    what: format!("{n} functions registered ({label} order), one rule calling each: {:?}", other.as_ref().map(|_| "a value of another shape").map_err(|e| e.to_string())),
+                    case,
+                    size: 1,
+                }),
+            },
+            other => acc.violation(Violation {
+                sig: "function-crowd/no-outcome".into(),
+                what: format!("{n} functions registered ({label} order): {:?}", other.map(|r| r.map(|x| x.map(|o| o.len()).map_err(|e| e.to_string())))),
+                case,
+                size: 1,
+            }),
+        }
+    }
+    acc.outcome("function-crowd");
+    CrowdResult { acc, members: n }
+}
+
 pub fn replay(case: &serde_json::Value) -> i32 {
+    if case.get("kind").and_then(|k| k.as_str()) == Some("function-crowd") {
+        let r = run_function_crowd();
+        println!("re-ran the function crowd ({} names)", r.members);
+        return if r.acc.violations.is_empty() {
+            println!("verdict: holds");
+            0
+        } else {
+            for v in r.acc.violations.values() {
+                println!("verdict: VIOLATED — {}", v.what);
+            }
+            1
+        };
+    }
+    if case.get("kind").and_then(|k| k.as_str()) == Some("constant-crowd") {
+        let r = run_constant_crowd(case.get("reverse").and_then(|p| p.as_bool()).unwrap_or(false));
+        println!("re-ran the constant crowd ({} members)", r.members);
+        return if r.acc.violations.is_empty() {
+            println!("verdict: holds");
+            0
+        } else {
+            for v in r.acc.violations.values() {
+                println!("verdict: VIOLATED — {}", v.what);
+            }
+            1
+        };
+    }
     let prop = case.get("property").and_then(|p| p.as_str()).unwrap_or("C11").to_string();
     let per_rule = case.get("per_rule").and_then(|p| p.as_u64()).map(|p| p.min(usize::MAX as u64) as usize).unwrap_or(usize::MAX);
     let reverse = case.get("reverse").and_then(|p| p.as_bool()).unwrap_or(false);
